@@ -197,6 +197,10 @@ func (e *Engine) VerifyLemma(key string) *FuncResult {
 	st := NewState()
 	c.entry = st
 	names := map[string]Val{}
+	if spec.Trusted {
+		// an axiom of the meta-theory: listed as an assumption, not proved here
+		return res
+	}
 	func() {
 		defer func() {
 			if r := recover(); r != nil {
@@ -209,14 +213,20 @@ func (e *Engine) VerifyLemma(key string) *FuncResult {
 		}()
 		if spec.Decl.Type.Params != nil {
 			for _, f := range spec.Decl.Type.Params.List {
-				tv, err := types.Eval(e.Fset, pk.Types, token.NoPos, exprString2(f.Type))
+				pt, err := e.evalType(pk, exprString2(f.Type))
 				if err != nil {
+					if ts := exprString2(f.Type); e.Spec.Sorts[ts] {
+						for _, n := range f.Names {
+							names[n.Name] = Val{T: c.fresh(n.Name, ts)}
+						}
+						continue
+					}
 					panic(unsupportedErr{fmt.Sprintf("lemma %s: parameter type %s: %v", key, exprString2(f.Type), err)})
 				}
 				for _, n := range f.Names {
-					t := c.fresh(n.Name, e.Sorts.SortOf(tv.Type))
-					st.Assume(c.typeFacts(t, tv.Type))
-					names[n.Name] = Val{T: t, GoT: tv.Type}
+					t := c.fresh(n.Name, e.Sorts.SortOf(pt))
+					st.Assume(c.typeFacts(t, pt))
+					names[n.Name] = Val{T: t, GoT: pt}
 				}
 			}
 		}
@@ -256,6 +266,13 @@ func (e *Engine) VerifyFunc(key string) *FuncResult {
 	}
 	fi := e.Funcs[key]
 	res := &FuncResult{Key: key}
+	if spec != nil && spec.Trusted && !spec.Extern {
+		// contract assumed, body not verified (listed in evidence)
+		if fi != nil {
+			res.File = shortPath(e.Fset.Position(fi.Decl.Pos()).Filename)
+		}
+		return res
+	}
 	if fi == nil {
 		res.Unsupported = append(res.Unsupported, "function "+key+" not found in /repo (contract without code)")
 		return res
@@ -273,6 +290,23 @@ func (e *Engine) VerifyFunc(key string) *FuncResult {
 		case *ast.RangeStmt:
 			n++
 			c.loopOrd[s] = n
+		case *ast.FuncLit:
+			return false
+		}
+		return true
+	})
+	// ordinals of assignments to plain identifiers, per name, in source order ("after assign x#k")
+	c.assignOrd = map[ast.Stmt]string{}
+	cnt := map[string]int{}
+	ast.Inspect(fi.Decl.Body, func(nd ast.Node) bool {
+		switch s := nd.(type) {
+		case *ast.AssignStmt:
+			if len(s.Lhs) >= 1 {
+				if id, ok := s.Lhs[0].(*ast.Ident); ok && id.Name != "_" {
+					cnt[id.Name]++
+					c.assignOrd[s] = fmt.Sprintf("%s#%d", id.Name, cnt[id.Name])
+				}
+			}
 		case *ast.FuncLit:
 			return false
 		}
@@ -372,6 +406,11 @@ func (e *Engine) VerifyFunc(key string) *FuncResult {
 		}
 		c.finishPath(o.st, o.kind == oReturn)
 	}
+	for _, a := range spec.Asserts {
+		if !c.assertSeen[a.Label+"|"+a.Expr] {
+			c.unsupported(token.NoPos, "assert %q was not evaluated on any path (site %q never reached or unknown names)", a.Label, a.At)
+		}
+	}
 	res.Obligations = c.obls
 	res.Unsupported = c.unsupp
 	res.Decls = c.decls
@@ -405,7 +444,18 @@ func (c *FnCtx) finishPath(st *State, explicit bool) {
 			return
 		}
 	}
+	// results are visible to exit-site ghost statements and asserts
+	for i, rv := range st.retVals {
+		st.spec[fmt.Sprintf("result%d", i)] = rv
+	}
+	if len(st.retVals) == 1 {
+		st.spec["result"] = st.retVals[0]
+	}
 	c.runGhosts(st, "exit", endPos)
+	for i := range st.retVals {
+		delete(st.spec, fmt.Sprintf("result%d", i))
+	}
+	delete(st.spec, "result")
 	if st.dead {
 		return
 	}
